@@ -188,14 +188,18 @@ where
         start: usize,
         hashes: I,
     ) -> Result<()> {
-        let index = self.capacity() + start - 1;
         let mut count = 0;
         // first count number of hashes, and check that they fit in the tree
         // then insert into the tree
         let hashes = hashes.into_iter().collect::<Vec<_>>();
-        if hashes.len() + start > self.capacity() {
+        // (checked: start + len must not wrap around for a start close to usize::MAX)
+        if start
+            .checked_add(hashes.len())
+            .map_or(true, |end| end > self.capacity())
+        {
             return Err(Report::msg("provided hashes do not fit in the tree"));
         }
+        let index = self.capacity() + start - 1;
         hashes.into_iter().for_each(|hash| {
             self.nodes[index + count] = hash;
             self.cached_leaves_indices[start + count] = 1;
